@@ -158,6 +158,13 @@ pub fn gen_base(rng: &mut Rng, rich: bool) -> Value {
                 );
             }
         }
+        // extensions directly under `paths` belong to the paths object, which comes entirely from the program
+        if rng.chance(1, 3) {
+            paths.insert("x-gateway-routes".to_owned(), json!({"legacy": true}));
+        }
+        if rng.chance(1, 4) {
+            paths.insert("x-generated-by".to_owned(), json!("gateway 1.0"));
+        }
         top.insert("paths".into(), Value::Object(paths));
     } else {
         top.insert("paths".into(), json!({}));
